@@ -294,7 +294,7 @@ def machine_factory(on_finish, on_violation):
 
 def plan(tier, seed):
     jobs = []
-    n = scaled(1280 if tier == "quick" else 12800)
+    n = scaled(3200 if tier == "quick" else 32000)
     shards = 16 if tier == "quick" else 64
     for k in range(shards):
         jobs.append({"sub": "history", "seed": seed, "shard": k, "n": max(1, n // shards), "steps": 30 if tier == "quick" else 50, "cost": 10})
